@@ -113,5 +113,14 @@ let () = iter_lines (fun line ->
          | Some (r0, _), Some (r, s), Some (_, k) -> if int_of_z k.K_fmtqfn.v__oob <> 0 then "OOB" else
              bigz r0 ^ " " ^ bigz r ^ " " ^ split ^ " " ^ hexz (take (int_of_z r) s.C_fmtqfn.a_s)
          | _ -> "STUCK")
+    | ["ap"; h; ok; lh; ipme] ->
+        (* addrparse() of qmail-smtpd.c as generated: "S <hex addr without its NUL>" | "F"; "OOB" when the checked variant saw an access outside an array *)
+        let l = zl lh in
+        (match C_addrparse.run f (zstr h) (z_of_int 0) [] (z_of_int 0) (z_of_int (int_of_string ok)) (zl ipme) l (z_of_int (List.length l)),
+               K_addrparse.run f (zstr h) (z_of_int 0) [] (z_of_int 0) (z_of_int (int_of_string ok)) (zl ipme) l (z_of_int (List.length l)) with
+         | Some (v, s), Some (_, k) ->
+             if int_of_z k.K_addrparse.v__oob <> 0 then "OOB" else
+             if int_of_z v = 0 then "F" else if int_of_z v < 0 then "E" else "S " ^ hexz (take (int_of_z s.C_addrparse.v_addr__len - 1) s.C_addrparse.a_addr__s)
+         | _ -> "STUCK")
     | _ -> "?" in
   print_string out; print_char '\n')
